@@ -2,6 +2,8 @@ package core
 
 import (
 	"runtime"
+	"sort"
+	"strconv"
 	"strings"
 	"sync"
 	"time"
@@ -17,11 +19,15 @@ type LockReq struct {
 	Gid       uint64
 	Seq       int
 	NotBefore time.Duration // stalls: not grantable before this simulated instant
+	GTag      string        // logical tag of the requesting goroutine
+	MTag      string        // logical tag of the mutex
+	key       string        // canonical sort key
+	seen      bool          // stall matching done
 	grant     chan struct{}
 }
 
 type lockState struct {
-	name    string
+	tag     string
 	writer  bool
 	wgid    uint64
 	wsite   string
@@ -43,7 +49,8 @@ type Sched struct {
 	mu       sync.Mutex // protects pending/locks against the (single running) goroutine and the driver
 	pending  []*LockReq
 	locks    map[any]*lockState
-	names    int
+	gtags    map[uint64]string
+	mtagN    map[string]int
 	seq      int
 	shutdown bool
 	stalls   []Stall
@@ -59,7 +66,7 @@ type Sched struct {
 }
 
 func newSched(w *World, stalls []Stall) *Sched {
-	return &Sched{w: w, locks: map[any]*lockState{}, stalls: stalls, stallHit: make([]int, len(stalls)), Grants: map[string]int{}}
+	return &Sched{w: w, locks: map[any]*lockState{}, gtags: map[uint64]string{}, mtagN: map[string]int{}, stalls: stalls, stallHit: make([]int, len(stalls)), Grants: map[string]int{}}
 }
 
 const repoPrefix = "github.com/tonkeeper/tongo/"
@@ -133,16 +140,25 @@ func (s *Sched) Lock(m any, write bool) {
 	s.mu.Lock()
 	s.seq++
 	r.Seq = s.seq
-	for i, st := range s.stalls {
-		if strings.Contains(role, st.Role) && strings.Contains(site, st.Site) {
-			s.stallHit[i]++
-			if s.stallHit[i] == st.Nth {
-				r.NotBefore = s.w.Now() + time.Duration(st.DelayMs)*time.Millisecond
-				s.StallsFired++
-				s.w.wakeAt(r.NotBefore)
-			}
-		}
+	r.GTag = s.gtags[r.Gid]
+	st := s.state(m)
+	if st.tag == "" {
+		// a mutex is named after its first user: role, site and logical goroutine tag, plus an ordinal
+		base := role + "@" + site + "<" + r.GTag + ">"
+		s.mtagN[base]++
+		st.tag = base + "#" + strconv.Itoa(s.mtagN[base])
 	}
+	r.MTag = st.tag
+	if r.GTag == "" {
+		// goroutines of the system under test inherit the identity of the first mutex they use
+		r.GTag = "~" + st.tag
+		s.gtags[r.Gid] = r.GTag
+	}
+	mode := "R"
+	if write {
+		mode = "W"
+	}
+	r.key = r.MTag + "|" + r.GTag + "|" + role + "|" + site + "|" + caller + "|" + mode
 	s.pending = append(s.pending, r)
 	s.mu.Unlock()
 	s.w.kickDriver()
@@ -183,7 +199,6 @@ func (s *Sched) Unlock(m any, write bool) {
 func (s *Sched) state(m any) *lockState {
 	st := s.locks[m]
 	if st == nil {
-		s.names++
 		st = &lockState{rgids: map[uint64]int{}}
 		s.locks[m] = st
 	}
@@ -201,10 +216,52 @@ func (s *Sched) grantable(r *LockReq, now time.Duration) bool {
 	return !st.writer
 }
 
-// Grantable lists pending requests that may be granted now, in arrival order.
+// TagGoroutine gives the calling goroutine a logical name (workload goroutines; dialing goroutines).
+func (s *Sched) TagGoroutine(tag string, override bool) {
+	gid := Gid()
+	s.mu.Lock()
+	if _, ok := s.gtags[gid]; !ok || override {
+		s.gtags[gid] = tag
+	}
+	s.mu.Unlock()
+}
+
+// normalize puts the pending list in canonical order (independent of the order in which goroutines
+// that woke at the same simulated instant happened to run) and applies stall matching to new requests.
+func (s *Sched) normalize(now time.Duration) {
+	sort.SliceStable(s.pending, func(i, j int) bool {
+		a, b := s.pending[i], s.pending[j]
+		if a.seen != b.seen {
+			return a.seen // older requests first
+		}
+		if a.key != b.key {
+			return a.key < b.key
+		}
+		return a.Seq < b.Seq
+	})
+	for _, r := range s.pending {
+		if r.seen {
+			continue
+		}
+		r.seen = true
+		for i, st := range s.stalls {
+			if strings.Contains(r.Role, st.Role) && strings.Contains(r.Site, st.Site) {
+				s.stallHit[i]++
+				if s.stallHit[i] == st.Nth {
+					r.NotBefore = now + time.Duration(st.DelayMs)*time.Millisecond
+					s.StallsFired++
+					s.w.wakeAt(r.NotBefore)
+				}
+			}
+		}
+	}
+}
+
+// Grantable lists pending requests that may be granted now, in canonical order.
 func (s *Sched) Grantable(now time.Duration) []*LockReq {
 	s.mu.Lock()
 	defer s.mu.Unlock()
+	s.normalize(now)
 	var out []*LockReq
 	for _, r := range s.pending {
 		if s.grantable(r, now) {
